@@ -191,6 +191,35 @@ def gen_alias_programs():
             yield (f"R12_bump_{un}_while__{cn}", mf, ctl)
 
 
+# route R13: a value that lives in an inner scope combined with a longer-lived allocator must not produce
+# something that outlives the inner scope (from_parts / into_vec / into_string tie the buffer's lifetime to
+# the allocator's scope lifetime).
+TWO_ALLOC = [
+    ("bumpvec_from_parts_into_slice", "let f = FixedBumpVec::<u8>::with_capacity_in(4, &*s);", "BumpVec::from_parts(f, &outer).into_slice()"),
+    ("bumpvec_from_parts_into_boxed_slice", "let f = FixedBumpVec::<u8>::with_capacity_in(4, &*s);", "BumpVec::from_parts(f, &outer).into_boxed_slice()"),
+    ("bumpvec_from_parts_into_fixed_vec", "let f = FixedBumpVec::<u8>::with_capacity_in(4, &*s);", "BumpVec::from_parts(f, &outer).into_fixed_vec()"),
+    ("bumpvec_from_parts_itself", "let f = FixedBumpVec::<u8>::with_capacity_in(4, &*s);", "BumpVec::from_parts(f, &outer)"),
+    ("fixed_into_vec", "let f = FixedBumpVec::<u8>::with_capacity_in(4, &*s);", "f.into_vec(&outer)"),
+    ("fixed_into_vec_into_slice", "let f = FixedBumpVec::<u8>::with_capacity_in(4, &*s);", "f.into_vec(&outer).into_slice()"),
+    ("bumpstring_from_parts_into_str", "let f = FixedBumpString::with_capacity_in(4, &*s);", "BumpString::from_parts(f, &outer).into_str()"),
+    ("bumpstring_from_parts_into_boxed_str", "let f = FixedBumpString::with_capacity_in(4, &*s);", "BumpString::from_parts(f, &outer).into_boxed_str()"),
+    ("bumpstring_from_parts_itself", "let f = FixedBumpString::with_capacity_in(4, &*s);", "BumpString::from_parts(f, &outer)"),
+    ("fixed_string_into_string", "let f = FixedBumpString::with_capacity_in(4, &*s);", "f.into_string(&outer)"),
+    ("fixed_string_into_string_into_str", "let f = FixedBumpString::with_capacity_in(4, &*s);", "f.into_string(&outer).into_str()"),
+]
+
+
+def gen_two_alloc_programs():
+    for (n, decl, prod) in TWO_ALLOC:
+        mf = f"let outer: Bump = Bump::new();\nlet mut inner: Bump = Bump::new();\nlet x = inner.scoped(|s| {{ {decl} {prod} }});\ntouch(&x);"
+        ctl = f"let outer: Bump = Bump::new();\nlet mut inner: Bump = Bump::new();\ninner.scoped(|s| {{ {decl} let x = {prod}; touch(&x); }});"
+        yield (f"R13_inner_value_outer_allocator__{n}", mf, ctl)
+        # guard variant
+        mf = f"let outer: Bump = Bump::new();\nlet mut inner: Bump = Bump::new();\nlet x;\n{{ let mut g = inner.scope_guard(); let s = g.scope(); {decl} x = {prod}; }}\ntouch(&x);"
+        ctl = f"let outer: Bump = Bump::new();\nlet mut inner: Bump = Bump::new();\n{{ let mut g = inner.scope_guard(); let s = g.scope(); {decl} let x = {prod}; touch(&x); }}"
+        yield (f"R13g_inner_value_outer_allocator__{n}", mf, ctl)
+
+
 def gen_borrow_programs():
     """yield (id, must_fail_body, control_body or None)"""
     for (pn, pexpr, pmut) in PRODUCERS:
@@ -381,7 +410,7 @@ def main(tier, seed, rest):
     os.makedirs(WORK, exist_ok=True)
     target_dir = os.path.join(WORK, "target")
     progs = list(gen_borrow_programs())
-    always = list(gen_alias_programs())
+    always = list(gen_alias_programs()) + list(gen_two_alloc_programs())
     total_grammar = len(progs) + len(always)
     rng = random.Random(seed)
     if tier != "thorough":
